@@ -173,6 +173,16 @@ func (p *Program) resolveRoles() {
 			}
 		}
 		for _, r := range missing {
+			// a field that carries the role's name with another type (the name was reused for the sub-struct
+			// that now holds the role's field) is not the role
+			for _, f := range fields {
+				if f.Name() == r.field && typeStr(f.Type()) != r.typeStr {
+					if p.shadowed == nil {
+						p.shadowed = map[*types.Var]bool{}
+					}
+					p.shadowed[f] = true
+				}
+			}
 			var cands []*types.Var
 			for _, f := range fields {
 				if !present[f] && typeStr(f.Type()) == r.typeStr && p.roleName[f] == "" {
@@ -230,6 +240,9 @@ func (p *Program) fieldsUsedBy(f *types.Func, depth int, seen map[*types.Func]bo
 func (p *Program) FieldName(v *types.Var) string {
 	if n, ok := p.roleName[v]; ok {
 		return n
+	}
+	if p.shadowed[v] {
+		return v.Name() + "'" // carries a role's name but is not the role
 	}
 	return v.Name()
 }
